@@ -56,7 +56,7 @@ def pointer_role(v):
     if 'mmap' not in s:
         return None
     for x in psi.walk(v):
-        if x[0] == 't' and x[1] == 'call' and x[2][0].endswith(('::add', '::offset', '::byte_add')) and 'mmap' in fmt(x):
+        if x[0] == 't' and x[1] == 'call' and x[2][0].startswith('std::ptr::') and x[2][0].endswith(common.PTR_ADVANCE) and 'mmap' in fmt(x):
             return 'ceb'
     for h, role in HDR_NAME_TO_ROLE.items():
         if s.endswith('.%s' % h) or ('.%s)' % h) in s:
